@@ -184,7 +184,7 @@ func cmdRun(args []string) int {
 		wg.Add(1)
 		go func(w int) {
 			defer wg.Done()
-			a := []string{"worker", "-prop", *prop, "-tier", *tier, "-seed", fmt.Sprint(*seed), "-from", fmt.Sprint(*offset+uint64(w)), "-stride", fmt.Sprint(W), "-count", fmt.Sprint(*offset+n),
+			a := []string{"worker", "-prop", *prop, "-tier", *tier, "-seed", fmt.Sprint(*seed), "-from", fmt.Sprint(*offset + uint64(w)), "-stride", fmt.Sprint(W), "-count", fmt.Sprint(*offset + n),
 				"-replays", *replays, "-known", *known, "-self", self,
 				"-distinct", filepath.Join(*scratch, fmt.Sprintf("distinct.%s.%d.bin", *prop, w)),
 				"-transp", filepath.Join(*scratch, fmt.Sprintf("transp.%s.%d.jsonl", *prop, w))}
